@@ -136,3 +136,35 @@ PROPS["C03"] = Meta(
          "non-trivial = >= 20 tasks, >= 1 task deferred past its creation, >= 2 worker ids used, >= 2 upward levels; distinct by hash of (case, schedule)",
     assumptions=SCHED_ASSUME,
 )
+
+
+def tsm(rt, dim=3):
+    import os
+    name = {0: "seq", 1: "omp", 2: "specx", 3: "starpu"}[rt]
+    defs = {"DIM": dim, "RT": rt, "NX": 1}
+    here = os.path.dirname(os.path.abspath(__file__))
+    if rt == 1:
+        return Bin("t_tsm_%s_d%d" % (name, dim), ["props/t_tsm.cpp", "runtimes/mockgomp.cpp"], defs, cxxflags=["-fopenmp"], ldflags=["-lpthread"])
+    inc = {0: [], 2: [os.path.join(here, "runtimes/specx")], 3: [os.path.join(here, "runtimes/starpu")]}[rt]
+    return Bin("t_tsm_%s_d%d" % (name, dim), ["props/t_tsm.cpp"], defs, includes=inc, ldflags=["-lpthread"])
+
+
+PROPS["C03"].jobs += [
+    Job("omp-tsm-d3", tsm(1, 3), quick=(3, 250, 100), thorough=(16, 3000, 100)),
+    Job("specx-tsm-d3", tsm(2, 3), quick=(3, 250, 100), thorough=(16, 3000, 100)),
+    Job("starpu-tsm-d3", tsm(3, 3), quick=(3, 250, 100), thorough=(16, 3000, 100)),
+]
+
+PROPS["C09"] = Meta(
+    jobs=[
+        Job("tsm-seq-d3", tsm(0, 3), quick=(5, 400, 100), thorough=(16, 5000, 100)),
+        Job("tsm-seq-d2", tsm(0, 2), quick=(4, 400, 100), thorough=(16, 5000, 100)),
+        Job("tsm-seq-d1", tsm(0, 1), quick=(2, 400, 100), thorough=(16, 5000, 100)),
+        Job("tsm-omp-d3", tsm(1, 3), quick=(5, 250, 100), thorough=(16, 3000, 100)),
+    ],
+    rule="two independently generated particle sets (independent / identical positions / disjoint half boxes / one side in a single leaf / N=1), heights, block sizes, modes, "
+         "working levels; oracle = every target value equals the model (each source once through exactly one of P2PTsm / M2L chain), source multipoles and target locals equal the model, "
+         "multiset of elementary interactions equals the definitions (no target leaf ever a source), source particle bytes unchanged, argument checks; the OpenMP target/source executor "
+         "additionally under generated schedules, bit-identical to the sequential one; non-trivial = some target cell has no source cell at its level and vice versa, >= 1 M2L and >= 1 P2PTsm",
+    assumptions=SCHED_ASSUME,
+)
